@@ -68,6 +68,23 @@ func init() {
 				})
 			}
 			strs(spURI, 5, 6, c15URI)
+			c.Explore("uri-codepoints", "NormalizeURI of every code point (all 0x110000, surrogates as their 3-byte encodings' replacement) alone, after '/', between '%' and a hex digit, and before a well-formed escape; every single byte 0..255 in the same contexts; one execution per block of 256", -1, 0, func(x *X) {
+				blk := x.ChooseFree(0x1100 + 1)
+				if blk == 0x1100 {
+					for b := 0; b < 256; b++ {
+						for _, s := range []string{string([]byte{byte(b)}), "/" + string([]byte{byte(b)}) + "a", "%" + string([]byte{byte(b)}) + "2", string([]byte{byte(b)}) + "%41", "%4" + string([]byte{byte(b)})} {
+							c15URI(x, s)
+						}
+					}
+					return
+				}
+				for r := rune(blk << 8); r < rune(blk<<8)+256; r++ {
+					c := string(r)
+					for _, s := range []string{c, "/" + c + "a", "%" + c + "2", c + "%41"} {
+						c15URI(x, s)
+					}
+				}
+			})
 			strs(spEmail, 7, 8, c15Email)
 			strs(spAuto, 6, 7, c15Autolink)
 			c.Explore("families", "digit runs 1..12 before . and ); # runs 1..9; fence runs 1..8 of both characters; e-mail domain labels of 59..66 characters in 3 positions", -1, 0, func(x *X) {
